@@ -104,7 +104,7 @@ func cmdServe(args []string) error {
 // ---------------------------------------------------------------- client
 
 var (
-	connectTries  = 100
+	connectTries  = 20
 	connectPause  = 50 * time.Millisecond
 	readDeadline  = 60 * time.Second
 	selfCloseWait = 20 * time.Second
@@ -174,6 +174,7 @@ func parseSizes(spec string, n int) []int {
 func runCase(addr string, stream []byte, sizes []int, mode string, pauseEvery int) (string, []byte) {
 	c, err := dial(addr)
 	if err != nil {
+		slow() // the server is gone: the remaining cases are skipped after a few of these
 		return "CONNFAIL", nil
 	}
 	defer c.Close()
